@@ -25,10 +25,23 @@ for i in ids:
         if m: cur = m.group(1)
         if cur and "FAILING-INPUT" in l and cur not in first_fail: first_fail[cur] = l.strip()[:300]
         if cur and "NO-LONGER-CHECKS" in l and cur not in first_fail: first_fail[cur] = l.strip()[:300]
-    meta["framework"] = {"checks_run": props, "caught": res, "first_report": first_fail}
+    concrete = {}
+    cur = None
+    for l in out.split("\n"):
+        m = re.match(r"== (C\d+):", l)
+        if m: cur = m.group(1)
+        if cur and "VIOLATION property=" in l:
+            concrete[cur] = not l.strip().endswith("no-failing-input-found")
+    first_input = {}
+    cur = None
+    for l in out.split("\n"):
+        m = re.match(r"== (C\d+):", l)
+        if m: cur = m.group(1)
+        if cur and "FAILING-INPUT" in l and cur not in first_input: first_input[cur] = l.strip()[:300]
+    meta["framework"] = {"checks_run": props, "caught": res, "concrete_failing_input_reported": concrete, "first_failing_input": first_input, "first_report": first_fail}
     json.dump(meta, open(os.path.join(d, "meta.json"), "w"), indent=1)
-    rows.append((i, meta["property"], res, meta.get("summary", "")[:110]))
+    rows.append((i, meta["property"], {k: (v, concrete.get(k)) for k, v in res.items()}, meta.get("summary", "")[:110]))
     print(i, res)
 with open(os.path.join(SD, "RESULTS.md"), "a") as f:
     for i, p, res, s in rows:
-        f.write("| %s | %s | %s | %s |\n" % (i, p, ", ".join("%s:%s" % (k, "caught" if v else "MISSED") for k, v in res.items()), s.replace("|", "/")))
+        f.write("| %s | %s | %s | %s |\n" % (i, p, ", ".join("%s:%s" % (k, ("caught+input" if v[1] else "caught (no concrete input)") if v[0] else "MISSED") for k, v in res.items()), s.replace("|", "/")))
